@@ -312,8 +312,15 @@ def r3_position(ctx, repo):
         raise AnalysisError("expected 3 update_position overrides, found %d" % n)
 
 
+_CA = ["_contents"]
+
+
 def r4_leaders(ctx, repo):
     n = 0
+    try:
+        _CA[0] = c04.content_attr(repo.cls("Archive", "archive"))
+    except AnalysisError:
+        pass
     for c in repo.subclasses("SwarmAlgorithm"):
         fn = c.methods.get("update_global_best")
         if fn is None:
@@ -346,7 +353,7 @@ def r4_leaders(ctx, repo):
                             pass
                 for t in store_targets(s):
                     tp = access_path(t) or ""
-                    if tp == L + "._contents" or tp.startswith(L + "._contents"):
+                    if tp == L + "." + _CA[0] or tp.startswith(L + "." + _CA[0]):
                         bad = bad or (s, "the leader list is written directly, bypassing Archive.add")
             if last_trunc < last_ins or trunc_call is None:
                 bad = bad or (fn, "on the path [%s] the leaders are not truncated after the last insertion: the leader set can exceed the population size" % p.describe(4))
